@@ -78,6 +78,8 @@ impl<T> Vec<T> {
     /// Returns the number of elements in the vector.
     #[inline]
     pub fn count(&self) -> u32 {
+        #[cfg(nucleo_verif)]
+        crate::verif::point("count.load", 0);
         self.inflight
             .load(Ordering::Acquire)
             .min(MAX_ENTRIES as u64) as u32
@@ -93,6 +95,8 @@ impl<T> Vec<T> {
         let location = Location::of(index);
 
         unsafe {
+            #[cfg(nucleo_verif)]
+            crate::verif::point("get_unchecked.load_entries", index as u64);
             let entries = self
                 .buckets
                 .get_unchecked(location.bucket as usize)
@@ -104,6 +108,8 @@ impl<T> Vec<T> {
             // thread synchronization (essentially acting as a memory barrier)
             // since the caller must only guarantee that he has observed active on any thread
             // but the current thread might still have an old value cached (although unlikely)
+            #[cfg(nucleo_verif)]
+            crate::verif::point("get_unchecked.load_active", index as u64);
             let _ = (*entry).active.load(Ordering::Acquire);
             Entry::read(entry, self.columns)
         }
@@ -115,6 +121,8 @@ impl<T> Vec<T> {
 
         unsafe {
             // safety: `location.bucket` is always in bounds
+            #[cfg(nucleo_verif)]
+            crate::verif::point("get.load_entries", index as u64);
             let entries = self
                 .buckets
                 .get_unchecked(location.bucket as usize)
@@ -129,6 +137,8 @@ impl<T> Vec<T> {
             // safety: `location.entry` is always in bounds for it's bucket
             let entry = Bucket::<T>::get(entries, location.entry, self.columns);
 
+            #[cfg(nucleo_verif)]
+            crate::verif::point("get.load_active", index as u64);
             // safety: the entry is active
             (*entry)
                 .active
@@ -139,6 +149,8 @@ impl<T> Vec<T> {
 
     /// Appends an element to the back of the vector.
     pub fn push(&self, value: T, fill_columns: impl FnOnce(&T, &mut [Utf32String])) -> u32 {
+        #[cfg(nucleo_verif)]
+        crate::verif::point("push.fetch_add", 0);
         let index = self.inflight.fetch_add(1, Ordering::Release);
         // the inflight counter is a `u64` to catch overflows of the vector'scapacity
         let index: u32 = index.try_into().expect("overflowed maximum capacity");
@@ -153,6 +165,8 @@ impl<T> Vec<T> {
 
         // safety: `location.bucket` is always in bounds
         let bucket = unsafe { self.buckets.get_unchecked(location.bucket as usize) };
+        #[cfg(nucleo_verif)]
+        crate::verif::point("push.load_entries", index as u64);
         let mut entries = bucket.entries.load(Ordering::Acquire);
 
         // the bucket has not been allocated yet
@@ -177,6 +191,8 @@ impl<T> Vec<T> {
             fill_columns(&value, Entry::matcher_cols_mut(entry, self.columns));
             (*entry).slot.get().write(MaybeUninit::new(value));
             // let other threads know that this entry is active
+            #[cfg(nucleo_verif)]
+            crate::verif::point("push.store_active", index as u64);
             (*entry).active.store(true, Ordering::Release);
         }
 
@@ -201,6 +217,8 @@ impl<T> Vec<T> {
         }
 
         // Reserve all indices at once
+        #[cfg(nucleo_verif)]
+        crate::verif::point("extend.fetch_add", count as u64);
         let start_index: u32 = self
             .inflight
             .fetch_add(u64::from(count), Ordering::Release)
@@ -223,6 +241,8 @@ impl<T> Vec<T> {
         }
 
         let mut bucket = unsafe { self.buckets.get_unchecked(start_location.bucket as usize) };
+        #[cfg(nucleo_verif)]
+        crate::verif::point("extend.load_entries", start_index as u64);
         let mut entries = bucket.entries.load(Ordering::Acquire);
         if entries.is_null() {
             entries = Vec::get_or_alloc(
@@ -246,6 +266,8 @@ impl<T> Vec<T> {
             if location.entry == 0 && i != 0 {
                 // safety: `location.bucket` is always in bounds
                 bucket = unsafe { self.buckets.get_unchecked(location.bucket as usize) };
+                #[cfg(nucleo_verif)]
+                crate::verif::point("extend.load_entries", start_index as u64 + i as u64);
                 entries = bucket.entries.load(Ordering::Acquire);
 
                 if entries.is_null() {
@@ -266,6 +288,8 @@ impl<T> Vec<T> {
                 }
                 fill_columns(&v, Entry::matcher_cols_mut(entry, self.columns));
                 (*entry).slot.get().write(MaybeUninit::new(v));
+                #[cfg(nucleo_verif)]
+                crate::verif::point("extend.store_active", start_index as u64 + i as u64);
                 (*entry).active.store(true, Ordering::Release);
             }
         }
@@ -274,6 +298,8 @@ impl<T> Vec<T> {
     /// race to initialize a bucket
     fn get_or_alloc(bucket: &Bucket<T>, len: u32, cols: u32) -> *mut Entry<T> {
         let entries = unsafe { Bucket::alloc(len, cols) };
+        #[cfg(nucleo_verif)]
+        crate::verif::point("alloc.cas", len as u64);
         match bucket.entries.compare_exchange(
             ptr::null_mut(),
             entries,
@@ -292,6 +318,8 @@ impl<T> Vec<T> {
     /// the iterator is deterministically sized and will not grow
     /// as more elements are pushed
     pub unsafe fn snapshot(&self, start: u32) -> Iter<'_, T> {
+        #[cfg(nucleo_verif)]
+        crate::verif::point("snapshot.load", 0);
         let end = self
             .inflight
             .load(Ordering::Acquire)
@@ -309,6 +337,8 @@ impl<T> Vec<T> {
     /// the iterator is deterministically sized and will not grow
     /// as more elements are pushed
     pub unsafe fn par_snapshot(&self, start: u32) -> ParIter<'_, T> {
+        #[cfg(nucleo_verif)]
+        crate::verif::point("par_snapshot.load", 0);
         let end = self
             .inflight
             .load(Ordering::Acquire)
@@ -369,6 +399,8 @@ impl<'v, T> Iterator for Iter<'v, T> {
         debug_assert!(self.end as u64 <= self.vec.inflight.load(Ordering::Relaxed));
 
         loop {
+            #[cfg(nucleo_verif)]
+            crate::verif::point("iter.load_entries", self.idx as u64);
             let entries = unsafe {
                 self.vec
                     .buckets
@@ -392,6 +424,8 @@ impl<'v, T> Iterator for Iter<'v, T> {
                 self.location.entry += 1;
                 self.idx += 1;
 
+                #[cfg(nucleo_verif)]
+                crate::verif::point("iter.load_active", index as u64);
                 let entry = unsafe {
                     (*entry)
                         .active
@@ -651,6 +685,12 @@ impl Location {
     fn alloc_next_bucket_entry(&self) -> u32 {
         self.bucket_len - (self.bucket_len >> 3)
     }
+}
+
+#[cfg(nucleo_verif)]
+pub(crate) fn verif_location_of(index: u32) -> (u32, u32, u32) {
+    let l = Location::of(index);
+    (l.bucket, l.bucket_len, l.entry)
 }
 
 #[cfg(test)]
